@@ -56,6 +56,17 @@ func lemmas() []lemma {
 	ls = append(ls, lemma{"intfloat-round", decl8 + "(assert (not (= (fp.roundToIntegral RTZ " + f32("a") + ") " + f32("a") + ")))"})
 	ls = append(ls, lemma{"intfloat-to-sbv", decl8 + "(assert (not (= ((_ fp.to_sbv 16) RTZ " + f32("a") + ") ((_ sign_extend 8) a))))"})
 	ls = append(ls, lemma{"intfloat-neg", decl8 + `(assert (not (= (fp.neg ` + f32("a") + `) (ite (= a #x00) (_ -zero 8 24) ` + f32("(bvneg ((_ sign_extend 1) a))") + `))))`})
+	ls = append(ls, lemma{"intfloat-div", decl8 + `(assert (not (= b #x00)))
+		(assert (not (= ((_ fp.to_sbv 16) RTZ (fp.div RNE ` + f32("a") + " " + f32("b") + `)) ((_ sign_extend 7) (bvsdiv ((_ sign_extend 1) a) ((_ sign_extend 1) b))))))`})
+	for _, md := range [][2]string{{"RTN", "(ite (and (not (= r #x000)) (not (= (bvslt x #x000) (bvslt y #x000)))) (bvsub q #x001) q)"},
+		{"RTP", "(ite (and (not (= r #x000)) (= (bvslt x #x000) (bvslt y #x000))) (bvadd q #x001) q)"}, {"RTZ", "q"}} {
+		ls = append(ls, lemma{"intfloat-div-round-" + md[0], decl8 + `(define-fun x () (_ BitVec 12) ((_ sign_extend 4) a))(define-fun y () (_ BitVec 12) ((_ sign_extend 4) b))
+		(define-fun q () (_ BitVec 12) (bvsdiv x y))(define-fun r () (_ BitVec 12) (bvsrem x y))
+		(define-fun adj () (_ BitVec 12) ` + md[1] + `)
+		(assert (not (= b #x00)))
+		(assert (not (= (fp.roundToIntegral ` + md[0] + ` (fp.div RNE ` + f32("a") + " " + f32("b") + `))
+			(ite (and (= adj #x000) (not (= (bvslt x #x000) (bvslt y #x000)))) (_ -zero 8 24) ((_ to_fp 8 24) RNE adj)))))`})
+	}
 	ls = append(ls, lemma{"intfloat-unsigned-view", decl8 + "(assert (not (= ((_ to_fp_unsigned 8 24) RNE a) " + f32("((_ zero_extend 1) a)") + ")))"})
 	return ls
 }
